@@ -28,7 +28,7 @@ func init() {
 		Phases: func(tier string, seed int64) []Phase {
 			return []Phase{{Name: "upgrades", Race: true, Run: c13Run}}
 		},
-		MinObserved: []string{"sessions_checked", "tls_records_classified", "post_upgrade_requests_compared", "sessions_open_and_idle_at_stop", "upgrades_served_by_the_default_route", "requests_answered_after_think_time", "handshakes_failed_or_abandoned_by_other_sessions", "sessions_with_an_answered_request_before_the_upgrade", "rendezvous_inside_the_tunnel_satisfied", "high_volume_sessions_after_upgrade"},
+		MinObserved: []string{"sessions_checked", "tls_records_classified", "post_upgrade_requests_compared", "sessions_open_and_idle_at_stop", "upgrades_served_by_the_default_route", "requests_answered_after_think_time", "handshakes_failed_or_abandoned_by_other_sessions", "sessions_with_an_answered_request_before_the_upgrade", "rendezvous_inside_the_tunnel_satisfied", "high_volume_sessions_after_upgrade", "plaintext_requests_sent_in_the_same_write_as_starttls", "sessions_whose_first_record_is_not_labelled_3_1"},
 	})
 }
 
@@ -146,6 +146,24 @@ func splitPlainTLS(stream []byte, stop func(m *sber.Msg) bool) (plainFrames int,
 // ---------------------------------------------------------------- check
 
 type c13Timing struct{ D1, D2, D3 int }
+
+// firstRecordVersion rewrites the record-layer version of the first TLS record the client writes (the ClientHello's
+// record may carry any {03,xx} there: RFC 8446 5.1, RFC 5246 E.1 - client stacks differ).
+type firstRecordVersion struct {
+	net.Conn
+	minor byte
+	done  bool
+}
+
+func (f *firstRecordVersion) Write(p []byte) (int, error) {
+	if !f.done && len(p) >= 5 && p[0] == 0x16 && p[1] == 0x03 {
+		f.done = true
+		q := append([]byte{}, p...)
+		q[2] = f.minor
+		return f.Conn.Write(q)
+	}
+	return f.Conn.Write(p)
+}
 
 // c13Wait bounds one upgrade step; two orders of magnitude above what a
 // handshake needs here, well below the general patience so that a broken
@@ -312,6 +330,40 @@ func c13Timed(c *Ctx, pki *PKI, tm c13Timing, par int, ti int) {
 	// whatever the server sends when it shuts down must be TLS-protected too
 	holdUntilStop := make(chan struct{})
 	var heldOpen sync.WaitGroup
+	// a client that does NOT wait: a plaintext bind rides in the same write as the StartTLS request. Whatever becomes of
+	// those bytes, they were not sent inside the tunnel and must never be served as if they had been (nor at all once
+	// the StartTLS request has been read: the read loop does not resume before the handler returns, and then the
+	// connection is a TLS connection).
+	smuggled := fmt.Sprintf("cn=smuggled-%d", ti)
+	if !c.MuteViolations && tm.D1+tm.D2 <= 100 {
+		wg.Add(1)
+		go func() {
+			defer wg.Done()
+			cn, err := net.Dial("tcp", srv.Addr)
+			if err != nil {
+				return
+			}
+			defer cn.Close()
+			cn.Write(append(sber.Message(1, sber.ExtendedRequest([]byte(sber.OIDStartTLS), nil, false), nil).Encode(),
+				sber.Message(77, sber.BindRequest(3, []byte(smuggled), []byte("p")), nil).Encode()...))
+			cl := wrapClient(cn)
+			if _, err := cl.ReadMsg(c13Wait); err != nil {
+				return
+			}
+			tc := tls.Client(cn, pki.ClientPlain)
+			cn.SetDeadline(time.Now().Add(3 * time.Second))
+			if tc.Handshake() == nil {
+				tcl := wrapClient(tc)
+				tcl.Send(sber.Message(78, sber.ExtendedRequest([]byte(sber.OIDWhoAmI), nil, false), nil).Encode())
+				for k := 0; k < 3; k++ {
+					if _, err := tcl.ReadMsg(500 * time.Millisecond); err != nil {
+						break
+					}
+				}
+			}
+			c.Count("plaintext_requests_sent_in_the_same_write_as_starttls", 1)
+		}()
+	}
 	for s := 0; s < par; s++ {
 		wg.Add(1)
 		go func(s int) {
@@ -392,10 +444,18 @@ func c13Timed(c *Ctx, pki *PKI, tm c13Timing, par int, ti int) {
 					c.Violate("a conforming StartTLS session failed", fmt.Sprintf("no StartTLS response with handler delays %v: %v", tm, err), det)
 					return
 				}
-				tc := tls.Client(cn, pki.ClientPlain)
+				var under net.Conn = cn
+				if s%4 == 3 {
+					// a client stack that labels its first record 3.3 / 3.2 / 3.0 instead of 3.1
+					minor := []byte{3, 2, 0}[ti%3]
+					under = &firstRecordVersion{Conn: cn, minor: minor}
+					det["first_record_version"] = fmt.Sprintf("3.%d", minor)
+					c.Count("sessions_whose_first_record_is_not_labelled_3_1", 1)
+				}
+				tc := tls.Client(under, pki.ClientPlain)
 				cn.SetDeadline(time.Now().Add(c13Wait))
 				if err := tc.Handshake(); err != nil {
-					c.Violate("a conforming StartTLS session failed", fmt.Sprintf("handshake after the StartTLS response failed with handler delays %v: %v", tm, err), det)
+					c.Violate("a conforming StartTLS session failed", fmt.Sprintf("handshake after the StartTLS response failed with handler delays %v: %v (%v)", tm, err, det["first_record_version"]), det)
 					return
 				}
 				cn.SetDeadline(time.Time{})
@@ -520,6 +580,11 @@ func c13Timed(c *Ctx, pki *PKI, tm c13Timing, par int, ti int) {
 	byID := map[int64]*Obs{}
 	for _, o := range rc.All() {
 		byID[o.ID] = o
+	}
+	for _, o := range rc.All() {
+		if o.Kind == "bind" && string(o.Name) == smuggled {
+			c.Violate("plaintext bytes sent behind the StartTLS request were served", fmt.Sprintf("a bind sent in the clear in the same write as the StartTLS request reached the %s handler (handler delays %v)", o.Route, tm), map[string]any{"timing": tm, "observed": o})
+		}
 	}
 	for _, q := range sent {
 		o := byID[q.ID]
